@@ -107,9 +107,10 @@ func VerifC01Op() {
 	}
 	q0, q1, ql, qf, qt, qsup := balOf(a0), balOf(a1), balOf(lk), balOf(from), balOf(to), supply()
 
-	if done {
-		vCover("operation-succeeded")
-	} else {
+	if op != 0 || (flen == 20 && tlen == 20) {
+		vRequire(done, "operation-succeeded")
+	}
+	if !done {
 		vCover("operation-refused")
 		vAssert(q0 == p0 && q1 == p1 && ql == pl && qf == pf && qt == pt && qsup == psup, "C01/refusal-changes-nothing")
 	}
